@@ -282,6 +282,7 @@ type Exec struct {
 	privateRefs []privateRef
 	epochN int
 	freshTypes map[string]types.Type
+	sortedBy map[string]func(a, b Term) (Term, []Term, bool)
 }
 
 type privateRef struct {
